@@ -45,6 +45,11 @@ type Exec struct {
 	usedAfter         map[types.Object]bool
 	localAssigns      map[*types.Var][]ast.Expr
 	assignsSeen       map[ast.Node]bool
+	closesChans       []Term // channels the goroutine under proof may close without owning them (closes=)
+	inputChans        []Term // the channels declared as inputs of the goroutine under proof
+	selectRecv        bool   // the next chanRecv is an arm of a select (not a blocking receive)
+	scratch           string // directory for synchronous solver queries (invariant inference)
+	inferQueries      int
 	resultOverride    []Term
 	wfSeen            map[string]bool
 	extraNames        map[string]Term
@@ -760,10 +765,7 @@ func (x *Exec) genericLoop(st *State, fr *Frame, node ast.Node, body []ast.Stmt,
 		return out
 	}
 
-	// 1. invariant holds on entry
-	checkInv(st, "inv-init")
-
-	// 2. what may an iteration modify?
+	// 1. what may an iteration modify?
 	run := func(s *State, done func(*State)) {
 		lfr := *fr
 		lfr.brk = func(*State) {}
@@ -774,6 +776,17 @@ func (x *Exec) genericLoop(st *State, fr *Frame, node ast.Node, body []ast.Stmt,
 		}, func(*State) {})
 	}
 	vars, maps, ghosts := x.modifiedBy(st, run)
+	if x.dry == 0 && x.opts["infer"] != "off" && (lc == nil || x.contractBroken(lc, lenv(st))) {
+		// no usable invariant: try to infer one from the function's other invariants
+		if inf := x.inferInvariant(st, fr, node, lc, lenv, run, func(s *State, round int) {
+			x.havocLoopTargets(s, vars, maps, ghosts, fmt.Sprintf("%sI%d", tag, round))
+		}); inf != nil {
+			lc = inf
+		}
+	}
+
+	// 2. invariant holds on entry
+	checkInv(st, "inv-init")
 
 	// 3. arbitrary iteration
 	it := st.clone()
